@@ -9,7 +9,7 @@ PROPS["C14"] = dict(
         "Kust.C14.clear_absent_noop", "Kust.C14.clear_frame", "Kust.Fns.pathGet_nocreate_doc",
         "Kust.C14.create_then_lookup",
     ],
-    components=["fns.lookup", "fns.setfield", "fns.clear", "fns.setelem", "fieldspec.apply"],
+    components=["fns.lookup", "fns.lookup2", "fns.setfield", "fns.clear", "fns.setelem", "fieldspec.apply"],
     oracle=False,
     n_corr={"quick": 3000, "thorough": 40000},
     technique="Lean 4 proof of get/set laws on a transliterated model of kyaml fns.go + differential correspondence (Go vs compiled Lean driver)",
